@@ -317,6 +317,8 @@ class Interp:
         return v
 
     def const_val(self, c):
+        if c.get("unit"):
+            return UNIT
         if "int" in c:
             return I(c["int"])
         if "bool" in c:
@@ -1187,6 +1189,31 @@ def m_identity(interp, st, t, args, bb):
     return [(st, args[0])]
 
 
+def m_checked_sub_one(interp, st, t, args, bb):
+    """usize::checked_sub(a, 1): None exactly when a == 0, otherwise Some(a - 1) - the guard-and-index idiom
+    `if let Some(left) = start.checked_sub(1)`; any other subtrahend stays unmodelled"""
+    if len(args) != 2 or args[1] != I(1):
+        return None
+    a = interp.resolve(st, args[0])
+    O = "core::option::Option"
+    if a[0] == "i":
+        return [(st, ("var", O, "None", ())) if a[1] == 0 else (st, ("var", O, "Some", (I(a[1] - 1),)))]
+    if a[0] != "sym":
+        return None
+    c = st.cons.get(a[1])
+    outs = []
+    if not (c and c[0] == "notin" and I(0) in c[1]) and not (c and c[0] == "eq" and c[1] != I(0)):
+        s0 = st.fork()
+        s0.cons[a[1]] = ("eq", I(0))
+        outs.append((s0, ("var", O, "None", ())))
+    if not (c and c[0] == "eq" and c[1] == I(0)):
+        s1 = st.fork()
+        if not (c and c[0] in ("eq", "ival")):
+            s1.cons[a[1]] = ("notin", frozenset((c[1] if c and c[0] == "notin" else frozenset()) | {I(0)}))
+        outs.append((s1, ("var", O, "Some", (("expr", "Sub", a, I(1)),))))
+    return outs
+
+
 def m_transpose(interp, st, t, args, bb):
     """Option<Result<T, E>>::transpose -> Result<Option<T>, E> on known variants"""
     v = args[0]
@@ -1373,6 +1400,7 @@ DEFAULT_MODELS = {
     "*::FromResidual<core::result::Result>>::from_residual": m_from_residual,
     "core::ops::try_trait::FromResidual::from_residual": m_from_residual,
     "core::option::Option::transpose": m_transpose,
+    "usize::checked_sub": m_checked_sub_one,
     "*::IntoIterator>::into_iter": m_identity,
     "core::iter::traits::collect::IntoIterator::into_iter": m_identity,
     "*::Deref>::deref": m_deref,
